@@ -40,6 +40,10 @@ def objective_value(name: str, x):
         if name == "const": return 1.0
         if name == "lognan": return float(np.log(v[0] + 5.0) + np.sum(v * v) * 0.01)        # NaN on part of the box (x0 < -5)
         if name == "multi2": return [float(np.sum(v * v)), float(np.sum((v - 1) * (v - 1)))]
+        if name.startswith("global:"):
+            # an objective that reads PROGRAM STATE which is not part of the task (a module-level setting, a dataset loaded elsewhere): whoever evaluates it - the
+            # parent, a pool thread, a forked worker - must see the state as it is when optimize() is called
+            return objective_value(name[7:], x) + GLOBAL_SHIFT[0]
         if name.startswith("neg:"):
             r = objective_value(name[4:], x)
             return [-t for t in r] if isinstance(r, list) else -r
@@ -49,6 +53,7 @@ def objective_value(name: str, x):
 
 
 _STORE: dict = {}
+GLOBAL_SHIFT = [0.0]
 
 
 def stored_objective(name: str, x):
@@ -221,6 +226,7 @@ def run_job_inner(job: dict) -> dict:
             obs.setdefault("pre_jobs_ok", []).append(bool(po.get("ok")))
             _KEEP_ALIVE.append(po)
             del _KEEP_ALIVE[:-40]
+        GLOBAL_SHIFT[0] = float(job["task"].get("global_shift", 0.0))
         entry = next(e for e in registry() if e["name"] == job["opt"])
         cls, cfg = load(entry, **job.get("cfg", {}))
         if job.get("record"):
